@@ -1,14 +1,148 @@
 /-
-C19 — property theorems (state/trie sync reproduces the source exactly or reports incompleteness).
+C19 — property theorems: state/trie sync reproduces the source exactly or reports incompleteness.
+
+Vocabulary (Spec.lean): `role` says in which role a hash is read (raw entry, node of a trie synced with /
+without the state leaf callback); `refs e role h v` is what a reader of the stored entry `(h, v)` follows next;
+`DbClosed` = every stored entry is usable and everything it references is stored; `OpOK` = the operation is one
+the repository issues (roots added without parent in the role they are read in, accepted blobs consistent with
+`role`).  `e.view` (decodeNode + leaf callback) and `e.H` (Keccak-256) are uninterpreted.
+
+All theorems are about `run e (St.init db0) ops` for an arbitrary operation list `ops`: every prefix of a
+schedule is again such a list, so each statement holds at every interruption point, for every order, batching,
+duplication, omission and corruption of responses, every `Missing` answer, every failing `Commit` writer and
+every restart.
 -/
-import YouVerif.C19.Model
+import YouVerif.C19.ProofsProcess
 
 namespace YouVerif.C19
+
+variable {e : Env} {role : Hash → Role}
+
+/-! ## Wrong data is rejected -/
 
 /-- A delivered blob whose Keccak is not a pending request is reported `ErrNotRequested` and changes nothing
 (`processNodeData` keys the blob by its own hash; `H` is uninterpreted). -/
 theorem wrong_data_rejected (e : Env) (s : St) (b : Blob) (h : findReq s.requests (e.H b) = none) :
     step e s (.deliver b) = (s, .processed false 0 (some .notRequested)) := by
   simp [step, processList, processOne, h]
+
+/-- If a blob `b` is accepted where the genuine blob `b0` was requested, then `(b, b0)` is a Keccak collision. -/
+theorem accepted_wrong_blob_is_collision (e : Env) (s : St) (b b0 : Blob) (r : Req)
+    (hacc : findReq s.requests (e.H b) = some r) (hreq : r.hash = e.H b0) (hne : b ≠ b0) :
+    b ≠ b0 ∧ e.H b = e.H b0 :=
+  ⟨hne, (findReq_some hacc).2.symm.trans hreq⟩
+
+/-- The same at the level of `trie.Sync.Process` (explicit hashes): an item whose hash is not pending stops the
+batch with `ErrNotRequested` at its index, leaving the state as the items before it left it. -/
+theorem unrequested_item_rejected (e : Env) (s : St) (h : Hash) (b : Blob) (rest : List (Hash × Blob)) (i : Nat) (c : Bool)
+    (hn : findReq s.requests h = none) :
+    processList e s ((h, b) :: rest) i c = (s, c, i, some .notRequested) := by
+  simp [processList, processOne, hn]
+
+/-! ## Parents commit last: the store is closed under children at every interruption point -/
+
+/-- **closed_under_children.**  After any schedule, every entry of the database or of the membatch is usable in
+its role and everything it references is in the database or the membatch. -/
+theorem closed_under_children {db0 : List Entry} {ops : List Op} (hd : DbClosed e role db0)
+    (hok : ∀ op ∈ ops, OpOK e role op) (h : Hash) (v : Option Blob)
+    (hm : (h, v) ∈ (run e (St.init db0) ops).db ∨ (h, v) ∈ (run e (St.init db0) ops).membatch) :
+    GoodEntry e role h v ∧ ∀ x ∈ refs e role h v, (run e (St.init db0) ops).inStore x = true := by
+  have hi := run_inv ops _ (init_inv hd) hok
+  rcases hm with hm | hm
+  · obtain ⟨g, r⟩ := hi.db h v hm
+    exact ⟨g, fun x hx => by rw [inStore_iff]; exact Or.inl (r x hx)⟩
+  · obtain ⟨g, r⟩ := closedFrom_mem hi.mem hm
+    exact ⟨g, fun x hx => by rw [inStore_iff]; exact r x hx⟩
+
+/-- The database alone is closed (the membatch is flushed in completion order, children first, so this also holds
+after a `Commit` whose writer failed half-way: `.commit (some k)` is one of the operations). -/
+theorem db_closed_always {db0 : List Entry} {ops : List Op} (hd : DbClosed e role db0)
+    (hok : ∀ op ∈ ops, OpOK e role op) : DbClosed e role (run e (St.init db0) ops).db :=
+  (run_inv ops _ (init_inv hd) hok).db
+
+/-- **never_partial_as_complete.**  At every interruption point: if the root is in the database then everything a
+reader reaches from it is in the database and usable — a partially filled trie is never presented as present. -/
+theorem never_partial_as_complete {db0 : List Entry} {ops : List Op} (hd : DbClosed e role db0)
+    (hok : ∀ op ∈ ops, OpOK e role op) (root x : Hash)
+    (hroot : (run e (St.init db0) ops).dbHas root = true)
+    (hx : Reach e role (run e (St.init db0) ops).db root x) :
+    (run e (St.init db0) ops).dbHas x = true ∧
+      ∀ v, (x, v) ∈ (run e (St.init db0) ops).db → GoodEntry e role x v :=
+  ⟨reach_in_db (db_closed_always hd hok) hroot hx, fun v hv => ((db_closed_always hd hok) x v hv).1⟩
+
+/-! ## The property is false without role consistency: known finding F-C19a
+
+A state in which a raw entry (contract code) is byte-identical to a trie node with children has no consistent
+`role`; the scheduler keeps one request per hash with a sticky `raw` flag, and the outcome depends on the order
+of the answers.  Concrete witness (replayed on the real code by the harness probe `F-C19a`). -/
+
+/-- hashes: 10 account-trie root, 11 / 12 account leaves of Y / X, 20 = X's storage root = hash of Y's code,
+21 storage leaf; 1 / 2 = emptyRoot / emptyState -/
+def cxEnv : Env :=
+  { view := fun b => match b with
+      | 1 => some { children := [(11, 1), (12, 1)], leaf := none }
+      | 2 => some { children := [], leaf := some (.adds [.sub 1, .raw 20]) }
+      | 3 => some { children := [], leaf := some (.adds [.sub 20, .raw 2]) }
+      | 4 => some { children := [(21, 1)], leaf := none }
+      | 5 => some { children := [], leaf := none }
+      | _ => none
+    H := fun b => match b with
+      | 1 => 10 | 2 => 11 | 3 => 12 | 4 => 20 | 5 => 21 | _ => 99
+    emptyRoot := 1, emptyState := 2, zeroHash := 0 }
+
+def cxRun (order : List Blob) : St :=
+  run cxEnv (newSync cxEnv [] 10 true) (order.map Op.deliver ++ [.commit none])
+
+/-- Only correct, hash-checked blobs are delivered, the sync reports completion (`Pending = 0`), the root is in the
+database — and the storage leaf 21, referenced by the stored node 20, is not. -/
+theorem clash_counterexample :
+    (cxRun [1, 2, 3, 4]).pending = 0 ∧ (cxRun [1, 2, 3, 4]).dbHas 10 = true ∧
+    (cxRun [1, 2, 3, 4]).dbHas 20 = true ∧ (cxRun [1, 2, 3, 4]).dbHas 21 = false := by decide
+
+/-- The other order of the same answers is still waiting for 21 and, once it arrives, ends complete: the result
+depends on the schedule. -/
+theorem clash_schedule_dependent :
+    (cxRun [1, 3, 2, 4]).pending = 5 ∧ (cxRun [1, 3, 2, 4, 5]).pending = 0 ∧ (cxRun [1, 3, 2, 4, 5]).dbHas 21 = true := by
+  decide
+
+/-! ## Non-vacuity: a concrete state, role assignment and adversarial schedule satisfying every hypothesis -/
+
+/-- as `cxEnv`, but Y's code is its own blob 6 under hash 30 -/
+def okEnv : Env :=
+  { cxEnv with
+    view := fun b => match b with
+      | 2 => some { children := [], leaf := some (.adds [.sub 1, .raw 30]) }
+      | 6 => none
+      | b => cxEnv.view b
+    H := fun b => match b with
+      | 6 => 30
+      | b => cxEnv.H b }
+
+def okRole : Hash → Role := fun h =>
+  if h = 10 ∨ h = 11 ∨ h = 12 then .node true else if h = 30 then .raw else .node false
+
+/-- a schedule with an unsolicited blob, a duplicate, a corrupted blob (7), a failing writer and a restart -/
+def okOps : List Op :=
+  [.addSub 10 0 0 true, .missing 0 [10], .deliver 5, .deliver 1, .deliver 3, .deliver 7, .deliver 4, .deliver 4,
+   .commit (some 0), .deliver 5, .commit (some 1), .restart, .addSub 10 0 0 true, .deliver 1, .deliver 2, .deliver 3,
+   .deliver 6, .deliver 4, .commit none]
+
+example : DbClosed okEnv okRole [] := fun _ _ h => by cases h
+
+example : ∀ op ∈ okOps, OpOK okEnv okRole op := by
+  intro op hop
+  simp only [okOps, List.mem_cons, List.not_mem_nil, or_false] at hop
+  rcases hop with rfl | rfl | rfl | rfl | rfl | rfl | rfl | rfl | rfl | rfl | rfl | rfl | rfl | rfl | rfl | rfl | rfl | rfl | rfl
+  all_goals first
+    | trivial
+    | (refine ⟨rfl, Or.inr ⟨by decide, by decide⟩⟩)
+    | (intro cb hr nv hv
+       simp [okEnv, cxEnv] at hv hr
+       try subst hv
+       try simp_all [okRole, AddOK, okEnv, cxEnv])
+
+/-- test on literals: the schedule above ends complete with everything reachable stored -/
+example : (run okEnv (St.init []) okOps).pending = 0 ∧ (run okEnv (St.init []) okOps).dbHas 10 = true ∧
+    (run okEnv (St.init []) okOps).dbHas 21 = true ∧ (run okEnv (St.init []) okOps).dbHas 30 = true := by decide
 
 end YouVerif.C19
